@@ -48,6 +48,7 @@ class ZBOSS:
 
         self._listeners = defaultdict(list)
         self._blocking_request_lock = asyncio.Lock()
+        self._send_message_lock = asyncio.Lock()
 
         self.nvram = NVRAMHelper(self)
         self.network_info: zigpy.state.NetworkInformation = None
@@ -219,10 +220,13 @@ class ZBOSS:
 
     async def _send_frags(self, fragments, response_future, timeout):
         """Send frame fragments to the uart."""
-        for frag in fragments:
-            if frag.ll_header.flags.value & t.LLFlags.LastFrag.value:
-                return await self._send_to_uart(frag, response_future, timeout)
-            await self._send_to_uart(frag, None)
+        # The fragments of one message must not be interleaved with the
+        # frames of another one; the response is awaited outside the lock
+        async with self._send_message_lock:
+            for frag in fragments:
+                await self._send_to_uart(frag, None)
+        return await self._wait_for_response_future(
+            fragments[-1], response_future, timeout)
 
     async def _send_to_uart(
             self, frame, response_future=None, timeout=DEFAULT_TIMEOUT):
@@ -231,11 +235,17 @@ class ZBOSS:
             raise RuntimeError(
                 "Coordinator is disconnected, cannot send request")
 
+        await self._uart.send(frame)
+        if response_future is not None:
+            return await self._wait_for_response_future(
+                frame, response_future, timeout)
+
+    async def _wait_for_response_future(
+            self, frame, response_future, timeout):
+        """Wait for the response of a frame that has been sent."""
         try:
-            await self._uart.send(frame)
-            if response_future is not None:
-                async with async_timeout.timeout(timeout):
-                    return await response_future
+            async with async_timeout.timeout(timeout):
+                return await response_future
         except asyncio.TimeoutError:
             LOGGER.debug(f"Timeout after {timeout}s: {frame}")
             raise
